@@ -29,6 +29,7 @@ import (
 	"github.com/prometheus/common/promslog"
 
 	"github.com/prometheus/prometheus/internal/verif/vx"
+	"github.com/prometheus/prometheus/model/histogram"
 	"github.com/prometheus/prometheus/model/labels"
 	"github.com/prometheus/prometheus/storage"
 	"github.com/prometheus/prometheus/tsdb/chunkenc"
@@ -64,6 +65,90 @@ var c07Layouts = []c07Layout{
 	{Name: "x2[2,3]", Chunks: []c07Chunk{{"x2", []int64{2, 3}}}},
 	{Name: "fh[2,3]", Chunks: []c07Chunk{{"fh", []int64{2, 3}}}},
 	{Name: "nochunks"},
+	// native histograms whose bucket layout GROWS inside the series (c07GrowLevel: a bucket in a new
+	// span at t=3, a bucket in front + the gap filled at t=4) without being a counter reset: a chunk
+	// holding such samples is re-coded to the wider layout while it is being appended to.
+	{Name: "hg[1,2]", Chunks: []c07Chunk{{"hg", []int64{1, 2}}}},
+	{Name: "hg[2,3]", Chunks: []c07Chunk{{"hg", []int64{2, 3}}}},
+	{Name: "hg[3,4]", Chunks: []c07Chunk{{"hg", []int64{3, 4}}}},
+	{Name: "fhg[2,3]", Chunks: []c07Chunk{{"fhg", []int64{2, 3}}}},
+	{Name: "fhg[1,2]fhg[3,4]", Chunks: []c07Chunk{{"fhg", []int64{1, 2}}, {"fhg", []int64{3, 4}}}},
+}
+
+// c07GrowLevel: the bucket layout of the growing histograms as a function of time (block times 1..4,
+// head times 90..110). Levels are nested, so that a later sample only ever adds buckets.
+func c07GrowLevel(t int64) int {
+	switch {
+	case t <= 2, t >= 90 && t <= 93:
+		return 0
+	case t == 3, t >= 94 && t <= 103:
+		return 1
+	}
+	return 2
+}
+
+var c07GrowIdx = [][]int32{{0, 1}, {0, 1, 3}, {-1, 0, 1, 2, 3}}
+
+// c07GrowHist: an integer histogram at time t whose populated bucket indexes are
+// c07GrowIdx[c07GrowLevel(t)]; every count is non-decreasing in t (no counter reset between any two
+// samples in time order, whatever block they come from); only Sum depends on the seed, so that two
+// blocks holding the same timestamp hold different values.
+func c07GrowHist(seed, t int64) *histogram.Histogram {
+	idx := c07GrowIdx[c07GrowLevel(t)]
+	h := &histogram.Histogram{Schema: 1, ZeroThreshold: 0.001, ZeroCount: uint64(t), Sum: float64(seed*1000 + t)}
+	h.Count = h.ZeroCount
+	prevIdx, prevCnt := int32(0), int64(0)
+	for i, ix := range idx {
+		cnt := 2*t + int64(ix) + 2
+		if i == 0 || ix != prevIdx+1 {
+			off := ix
+			if i > 0 {
+				off = ix - prevIdx - 1
+			}
+			h.PositiveSpans = append(h.PositiveSpans, histogram.Span{Offset: off, Length: 1})
+		} else {
+			h.PositiveSpans[len(h.PositiveSpans)-1].Length++
+		}
+		h.PositiveBuckets = append(h.PositiveBuckets, cnt-prevCnt)
+		h.Count += uint64(cnt)
+		prevIdx, prevCnt = ix, cnt
+	}
+	h.NegativeSpans = []histogram.Span{{Offset: 0, Length: 1}}
+	h.NegativeBuckets = []int64{t}
+	h.Count += uint64(t)
+	return h
+}
+
+// c07GrowChunk encodes samples of growing histograms into ONE chunk (chunks.ChunkFromSamples refuses
+// re-coding); a counter reset / cut here would be a harness error.
+func c07GrowChunk(smp []chunks.Sample) chunks.Meta {
+	var c chunkenc.Chunk = chunkenc.NewHistogramChunk()
+	if smp[0].FH() != nil {
+		c = chunkenc.NewFloatHistogramChunk()
+	}
+	app, err := c.Appender()
+	if err != nil {
+		panic(err)
+	}
+	for _, s := range smp {
+		var nc chunkenc.Chunk
+		var recoded bool
+		if s.FH() != nil {
+			nc, recoded, app, err = app.AppendFloatHistogram(nil, 0, s.T(), s.FH(), false)
+		} else {
+			nc, recoded, app, err = app.AppendHistogram(nil, 0, s.T(), s.H(), false)
+		}
+		if err != nil {
+			panic(err)
+		}
+		if nc != nil {
+			if !recoded {
+				panic("c07: growing histograms were cut into two chunks (harness error: they must not be counter resets)")
+			}
+			c = nc
+		}
+	}
+	return chunks.Meta{MinTime: smp[0].T(), MaxTime: smp[len(smp)-1].T(), Chunk: c}
 }
 
 type c07Tomb struct {
@@ -146,6 +231,12 @@ func c07Value(enc string, seed, t int64) (chunks.Sample, string) {
 	case "fh":
 		fh := tsdbutil.GenerateTestFloatHistogram(n)
 		return newSample(0, t, 0, nil, fh), canonFloatHist(fh)
+	case "hg":
+		h := c07GrowHist(seed, t)
+		return newSample(0, t, 0, h, nil), canonHist(h)
+	case "fhg":
+		fh := c07GrowHist(seed, t).ToFloat(nil)
+		return newSample(0, t, 0, nil, fh), canonFloatHist(fh)
 	}
 	panic("c07: encoding " + enc)
 }
@@ -169,9 +260,24 @@ func c07MakeChunk(c c07Chunk, seed int64) (chunks.Meta, []c07Sample) {
 		}
 		return chunks.Meta{MinTime: c.Ts[0], MaxTime: c.Ts[len(c.Ts)-1], Chunk: ch}, model
 	}
-	m, err := chunks.ChunkFromSamples(smp)
-	if err != nil {
-		panic(err)
+	var m chunks.Meta
+	if c.Enc == "hg" || c.Enc == "fhg" {
+		m = c07GrowChunk(smp)
+	} else {
+		var err error
+		if m, err = chunks.ChunkFromSamples(smp); err != nil {
+			panic(err)
+		}
+	}
+	// the harness-local encoding is trusted; at least it must decode to the model
+	got, err := drainSeries(m.Chunk.Iterator(nil))
+	if err != nil || len(got) != len(model) {
+		panic(fmt.Sprintf("c07: input chunk %v decodes to %v (%v)", c, got, err))
+	}
+	for i := range got {
+		if got[i].t != model[i].T || got[i].val != model[i].Val {
+			panic(fmt.Sprintf("c07: input chunk %v sample %d decodes to %v, want %v", c, i, got[i], model[i]))
+		}
 	}
 	return m, model
 }
@@ -761,27 +867,136 @@ func c07Outcome(out []c07OutSeries) string {
 }
 
 // c07ReadBlock reads a written block through the block queriers and its index.
-func c07ReadBlock(dir string) (out []c07OutSeries, viaQuerier map[string][]qSample, meta BlockMeta, err error) {
-	b, err := OpenBlock(nil, dir, nil, nil)
-	if err != nil {
-		return nil, nil, BlockMeta{}, err
+//
+// grid: for every a <= b of it the block is also queried over the sub-range [a,b] through both
+// queriers (these depend on the chunk metas in the index, a full-range read does not); the first
+// disagreement with the full-range read is returned in subSig/subMsg.
+func c07ReadBlock(dir string, grid []int64) (out []c07OutSeries, viaQuerier map[string][]qSample, meta BlockMeta, subSig, subMsg string, err error) {
+	out, viaQuerier, meta, b, err := c07ReadBlockFull(dir)
+	if b != nil {
+		defer b.Close()
 	}
-	defer b.Close()
+	if err != nil {
+		return out, viaQuerier, meta, "", "", err
+	}
+	for i, lo := range grid {
+		for _, hi := range grid[i:] {
+			gotQ, gotCQ, err := c07QuerySub(b, lo, hi)
+			if err != nil {
+				return out, viaQuerier, meta, "", "", fmt.Errorf("sub-range [%d,%d]: %w", lo, hi, err)
+			}
+			if sig, msg := c07CheckSub(viaQuerier, lo, hi, gotQ, gotCQ); sig != "" {
+				return out, viaQuerier, meta, sig, msg, nil
+			}
+		}
+	}
+	return out, viaQuerier, meta, "", "", nil
+}
+
+// c07QuerySub queries [lo,hi] through the sample querier and the chunk querier (all samples of the
+// returned chunks, whole chunks may be returned).
+func c07QuerySub(b *Block, lo, hi int64) (viaQ, viaCQ map[string][]qSample, err error) {
+	ctx := context.Background()
+	all := labels.MustNewMatcher(labels.MatchRegexp, "__name__", ".*")
+	q, err := NewBlockQuerier(b, lo, hi)
+	if err != nil {
+		return nil, nil, err
+	}
+	viaQ = map[string][]qSample{}
+	ss := q.Select(ctx, true, nil, all)
+	for ss.Next() {
+		smp, err := drainSeries(ss.At().Iterator(nil))
+		if err != nil {
+			q.Close()
+			return nil, nil, err
+		}
+		viaQ[ss.At().Labels().String()] = smp
+	}
+	err = ss.Err()
+	q.Close()
+	if err != nil {
+		return nil, nil, err
+	}
+	cq, err := NewBlockChunkQuerier(b, lo, hi)
+	if err != nil {
+		return nil, nil, err
+	}
+	defer cq.Close()
+	viaCQ = map[string][]qSample{}
+	css := cq.Select(ctx, true, nil, all)
+	for css.Next() {
+		k := css.At().Labels().String()
+		it := css.At().Iterator(nil)
+		for it.Next() {
+			smp, err := drainSeries(it.At().Chunk.Iterator(nil))
+			if err != nil {
+				return nil, nil, err
+			}
+			viaCQ[k] = append(viaCQ[k], smp...)
+		}
+		if err := it.Err(); err != nil {
+			return nil, nil, err
+		}
+	}
+	return viaQ, viaCQ, css.Err()
+}
+
+func c07Restrict(smp []qSample, lo, hi int64) []qSample {
+	var out []qSample
+	for _, s := range smp {
+		if s.t >= lo && s.t <= hi {
+			out = append(out, s)
+		}
+	}
+	return out
+}
+
+// c07CheckSub: a query over [lo,hi] must return exactly the full-range result restricted to [lo,hi]
+// (sample querier), resp. chunks that hold exactly those samples inside [lo,hi] (chunk querier).
+func c07CheckSub(full map[string][]qSample, lo, hi int64, gotQ, gotCQ map[string][]qSample) (string, string) {
+	for _, g := range []struct {
+		sig string
+		got map[string][]qSample
+	}{{"subrange-query-mismatch", gotQ}, {"subrange-chunk-query-mismatch", gotCQ}} {
+		for k, smp := range full {
+			want := c07Restrict(smp, lo, hi)
+			got := c07Restrict(g.got[k], lo, hi)
+			if g.sig == "subrange-query-mismatch" {
+				got = g.got[k] // the sample querier must not return anything outside the range either
+			}
+			if fmt.Sprint(want) != fmt.Sprint(got) {
+				return g.sig, fmt.Sprintf("series %s queried over [%d,%d]: got %v, the full-range read holds %v there", k, lo, hi, got, want)
+			}
+		}
+		for k, smp := range g.got {
+			if _, ok := full[k]; !ok && len(smp) > 0 {
+				return g.sig, fmt.Sprintf("series %s queried over [%d,%d]: %v, but the full-range read does not return the series", k, lo, hi, smp)
+			}
+		}
+	}
+	return "", ""
+}
+
+func c07ReadBlockFull(dir string) (out []c07OutSeries, viaQuerier map[string][]qSample, meta BlockMeta, b *Block, err error) {
+	b, err = OpenBlock(nil, dir, nil, nil)
+	if err != nil {
+		return nil, nil, BlockMeta{}, nil, err
+	}
 	meta = b.Meta()
 	if tr, terr := b.Tombstones(); terr != nil {
-		return nil, nil, meta, terr
+		return nil, nil, meta, b, terr
 	} else {
 		n := tr.Total()
 		tr.Close()
 		if n != meta.Stats.NumTombstones {
-			return nil, nil, meta, fmt.Errorf("meta.Stats.NumTombstones=%d but the tombstones file holds %d intervals", meta.Stats.NumTombstones, n)
+			return nil, nil, meta, b, fmt.Errorf("meta.Stats.NumTombstones=%d but the tombstones file holds %d intervals", meta.Stats.NumTombstones, n)
 		}
 	}
 	ctx := context.Background()
 	all := labels.MustNewMatcher(labels.MatchRegexp, "__name__", ".*")
 	cq, err := NewBlockChunkQuerier(b, math.MinInt64, math.MaxInt64)
 	if err != nil {
-		return nil, nil, meta, err
+		return nil, nil, meta, b, err
 	}
 	css := cq.Select(ctx, true, nil, all)
 	for css.Next() {
@@ -793,24 +1008,24 @@ func c07ReadBlock(dir string) (out []c07OutSeries, viaQuerier map[string][]qSamp
 			smp, err := drainSeries(m.Chunk.Iterator(nil))
 			if err != nil {
 				cq.Close()
-				return nil, nil, meta, err
+				return nil, nil, meta, b, err
 			}
 			os.Chunks = append(os.Chunks, c07OutChunk{Min: m.MinTime, Max: m.MaxTime, Enc: m.Chunk.Encoding(), Samples: smp, N: m.Chunk.NumSamples()})
 		}
 		if err := it.Err(); err != nil {
 			cq.Close()
-			return nil, nil, meta, err
+			return nil, nil, meta, b, err
 		}
 		out = append(out, os)
 	}
 	if err := css.Err(); err != nil {
 		cq.Close()
-		return nil, nil, meta, err
+		return nil, nil, meta, b, err
 	}
 	cq.Close()
 	q, err := NewBlockQuerier(b, math.MinInt64, math.MaxInt64)
 	if err != nil {
-		return nil, nil, meta, err
+		return nil, nil, meta, b, err
 	}
 	defer q.Close()
 	viaQuerier = map[string][]qSample{}
@@ -819,16 +1034,16 @@ func c07ReadBlock(dir string) (out []c07OutSeries, viaQuerier map[string][]qSamp
 		s := ss.At()
 		smp, err := drainSeries(s.Iterator(nil))
 		if err != nil {
-			return nil, nil, meta, err
+			return nil, nil, meta, b, err
 		}
 		viaQuerier[s.Labels().String()] = smp
 	}
-	return out, viaQuerier, meta, ss.Err()
+	return out, viaQuerier, meta, b, ss.Err()
 }
 
 // c07CheckBlock checks a written block directory against the expectation (both queriers, stats).
-func (x *c07Run) c07CheckBlock(dir string, exp c07Expect, mint, maxt int64, cs c07Case) (string, bool) {
-	out, viaQ, meta, err := c07ReadBlock(dir)
+func (x *c07Run) c07CheckBlock(dir string, exp c07Expect, mint, maxt int64, grid []int64, cs c07Case) (string, bool) {
+	out, viaQ, meta, subSig, subMsg, err := c07ReadBlock(dir, grid)
 	if err != nil {
 		x.viol("output-unreadable", "reading the output block: "+err.Error(), cs)
 		return "", false
@@ -836,6 +1051,9 @@ func (x *c07Run) c07CheckBlock(dir string, exp c07Expect, mint, maxt int64, cs c
 	if meta.MinTime != mint || meta.MaxTime != maxt {
 		x.viol("output-meta-range", fmt.Sprintf("output block range [%d,%d), want [%d,%d)", meta.MinTime, meta.MaxTime, mint, maxt), cs)
 		return "", false
+	}
+	if subSig != "" {
+		x.viol(subSig, subMsg, cs)
 	}
 	if sig, msg := c07CheckOutput(out, exp, &meta.Stats, true); sig != "" {
 		x.viol(sig, msg, cs)
@@ -856,8 +1074,15 @@ func (x *c07Run) c07CheckBlock(dir string, exp c07Expect, mint, maxt int64, cs c
 		x.viol("querier-disagrees-with-chunk-querier", fmt.Sprintf("block querier returns %d series, chunk querier %d", len(viaQ), len(out)), cs)
 		return "", false
 	}
+	if subSig != "" {
+		return "", false
+	}
 	return c07Outcome(out), true
 }
+
+// c07BlockGrid: the sub-range query grid of the block parts (sample times 1..4 and one point outside
+// on either side).
+var c07BlockGrid = []int64{0, 1, 2, 3, 4, 5}
 
 func c07CopyDir(src, dst string) error {
 	return filepath.Walk(src, func(p string, info os.FileInfo, err error) error {
@@ -937,8 +1162,104 @@ func (x *c07Run) partB(kinds []c07Kind, note func(outcome string)) {
 		x.viol("output-block-count", fmt.Sprintf("Compact returned %d blocks, want 1 (%d samples expected)", len(ids), exp.total()), cs)
 		return
 	}
-	if oc, ok := x.c07CheckBlock(filepath.Join(tmp, ids[0].String()), exp, mint, maxt, cs); ok {
+	if oc, ok := x.c07CheckBlock(filepath.Join(tmp, ids[0].String()), exp, mint, maxt, c07BlockGrid, cs); ok {
 		note(oc)
+	}
+}
+
+// c07Stage copies the input block directories into tmp under fresh ULIDs (base+i).
+func c07Stage(tmp string, ins []*c07Input, base uint64) (dirs []string, series [][]c07SeriesIn, mint, maxt int64, err error) {
+	mint, maxt = int64(math.MaxInt64), int64(math.MinInt64)
+	for i, in := range ins {
+		id := c07ULID(base + uint64(i))
+		d := filepath.Join(tmp, id.String())
+		if err := c07CopyDir(in.Dir, d); err != nil {
+			return nil, nil, 0, 0, err
+		}
+		m := in.Meta
+		m.ULID = id
+		m.Compaction.Sources = []ulid.ULID{id}
+		if _, err := writeMetaFile(promslog.NewNopLogger(), d, &m); err != nil {
+			return nil, nil, 0, 0, err
+		}
+		dirs = append(dirs, d)
+		series = append(series, in.Series)
+		mint, maxt = min(mint, m.MinTime), max(maxt, m.MaxTime)
+	}
+	return dirs, series, mint, maxt, nil
+}
+
+// partD: two-level compaction. The pair is compacted (as in part B; its output is checked there), then
+// the OUTPUT block - written by the compactor, with the chunk metas the compactor computed - is
+// compacted with every block of thirds. The result must be the union of all three inputs.
+func (x *c07Run) partD(pair, thirds []c07Kind, note func(outcome string)) {
+	ins := x.sortedInputs(pair)
+	tmp, err := os.MkdirTemp("", "c07d")
+	if err != nil {
+		x.r.T.Errorf("c07: %v", err)
+		return
+	}
+	defer os.RemoveAll(tmp)
+	dirs, series, mint, maxt, err := c07Stage(tmp, ins, 5000)
+	if err != nil {
+		x.r.T.Errorf("c07: stage: %v", err)
+		return
+	}
+	comp, err := c07Compactor(100)
+	if err != nil {
+		x.r.T.Errorf("c07: %v", err)
+		return
+	}
+	var ids []ulid.ULID
+	p, _ := vx.Guard(func() { ids, err = comp.Compact(tmp, dirs, nil) })
+	x.r.Count("compactions", 1)
+	if p != nil || err != nil || len(ids) != 1 {
+		return // first level: part B's business (everything deleted: nothing to compact further)
+	}
+	first := filepath.Join(tmp, ids[0].String())
+	for _, k3 := range thirds {
+		cs := c07Case{Part: "D", Kinds: append(append([]c07Kind{}, pair...), k3), Merger: "default, two levels"}
+		in3 := x.sortedInputs([]c07Kind{k3})
+		tmp2, err := os.MkdirTemp("", "c07d2")
+		if err != nil {
+			x.r.T.Errorf("c07: %v", err)
+			return
+		}
+		func() {
+			defer os.RemoveAll(tmp2)
+			dirs3, series3, mint3, maxt3, err := c07Stage(tmp2, in3, 7000)
+			if err != nil {
+				x.r.T.Errorf("c07: stage: %v", err)
+				return
+			}
+			lo, hi := min(mint, mint3), max(maxt, maxt3)
+			exp := c07ExpectOf(append(append([][]c07SeriesIn{}, series...), series3...), lo, hi)
+			dirs2 := []string{first, dirs3[0]} // sorted by MinTime, as the planner hands them over
+			if mint3 < mint {
+				dirs2 = []string{dirs3[0], first}
+			}
+			var ids2 []ulid.ULID
+			p, stack := vx.Guard(func() { ids2, err = comp.Compact(tmp2, dirs2, nil) })
+			x.r.Count("evaluations", 1)
+			x.r.Count("compactions", 1)
+			x.r.Count("second_level_compactions", 1)
+			switch {
+			case p != nil:
+				x.viol("compact-panic", fmt.Sprintf("second-level Compact panicked: %v\n%s", p, stack), cs)
+			case err != nil:
+				x.viol("compact-error", "second-level Compact: "+err.Error(), cs)
+			case exp.total() == 0 && len(ids2) != 0:
+				x.viol("output-block-for-empty-result", fmt.Sprintf("every input sample is deleted, but Compact produced block(s) %v", ids2), cs)
+			case exp.total() == 0:
+				note("empty")
+			case len(ids2) != 1:
+				x.viol("output-block-count", fmt.Sprintf("second-level Compact returned %d blocks, want 1 (%d samples expected)", len(ids2), exp.total()), cs)
+			default:
+				if oc, ok := x.c07CheckBlock(filepath.Join(tmp2, ids2[0].String()), exp, lo, hi, c07BlockGrid, cs); ok {
+					note(oc)
+				}
+			}
+		}()
 	}
 }
 
@@ -999,6 +1320,7 @@ func c07BuildHead(cfg c07HeadCfg, quick bool) (*c07HeadSys, error) {
 	lf := labels.FromStrings("__name__", "m", "s", "float")
 	lh := labels.FromStrings("__name__", "m", "s", "hist")
 	lm := labels.FromStrings("__name__", "m", "s", "mixed")
+	lg := labels.FromStrings("__name__", "m", "s", "grow") // histograms whose bucket layout grows at t=104 (and 94, out of order)
 	model := map[string]*c07SeriesIn{}
 	oooModel := map[string]*c07SeriesIn{}
 	put := func(m map[string]*c07SeriesIn, l labels.Labels, t int64, v string) {
@@ -1043,6 +1365,12 @@ func c07BuildHead(cfg c07HeadCfg, quick bool) (*c07HeadSys, error) {
 				return nil, err
 			}
 		}
+		if t%2 == 1 {
+			if err := appendOne(lg, "hg", t, false); err != nil {
+				h.Close()
+				return nil, err
+			}
+		}
 		if t <= 105 {
 			enc := "f"
 			if t == 102 || t == 103 {
@@ -1065,6 +1393,12 @@ func c07BuildHead(cfg c07HeadCfg, quick bool) (*c07HeadSys, error) {
 		}
 		for _, t := range []int64{94, 92} {
 			if err := appendOne(lh, "h", t, true); err != nil {
+				h.Close()
+				return nil, err
+			}
+		}
+		for _, t := range []int64{96, 91, 94, 93} {
+			if err := appendOne(lg, "hg", t, true); err != nil {
 				h.Close()
 				return nil, err
 			}
@@ -1151,7 +1485,7 @@ func (x *c07Run) partC(h *c07HeadSys, mode string, mint, maxt int64, note func(s
 		x.viol("output-block-count", fmt.Sprintf("Write returned %d blocks, want 1 (%d samples expected)", len(ids), exp.total()), cs)
 		return
 	}
-	if oc, ok := x.c07CheckBlock(filepath.Join(tmp, ids[0].String()), exp, mint, maxt, cs); ok {
+	if oc, ok := x.c07CheckBlock(filepath.Join(tmp, ids[0].String()), exp, mint, maxt, h.times, cs); ok {
 		note(oc)
 	}
 }
@@ -1235,6 +1569,54 @@ func c07SelfTest(t *testing.T) {
 			t.Fatalf("self-test %d: oracle says %q, want %q", i, sig, c.want)
 		}
 	}
+	// sub-range oracle
+	fullQ := map[string][]qSample{"s": {{1, "a"}, {2, "b"}, {3, "c"}}}
+	for i, c := range []struct {
+		q, cq []qSample
+		want  string
+	}{
+		{[]qSample{{2, "b"}, {3, "c"}}, []qSample{{1, "a"}, {2, "b"}, {3, "c"}}, ""},
+		{[]qSample{{3, "c"}}, []qSample{{1, "a"}, {2, "b"}, {3, "c"}}, "subrange-query-mismatch"},
+		{[]qSample{{1, "a"}, {2, "b"}, {3, "c"}}, []qSample{{1, "a"}, {2, "b"}, {3, "c"}}, "subrange-query-mismatch"},
+		{[]qSample{{2, "b"}, {3, "c"}}, nil, "subrange-chunk-query-mismatch"},
+	} {
+		if sig, _ := c07CheckSub(fullQ, 2, 3, map[string][]qSample{"s": c.q}, map[string][]qSample{"s": c.cq}); sig != c.want {
+			t.Fatalf("self-test sub-range %d: oracle says %q, want %q", i, sig, c.want)
+		}
+	}
+	// the growing histograms do grow: appending t=3 after t=2 and t=4 after t=3 re-codes the chunk, appending
+	// t=2 after t=1 does not, and none of them is a counter reset
+	for _, c := range []struct {
+		a, b   int64
+		recode bool
+	}{{1, 2, false}, {2, 3, true}, {3, 4, true}, {1, 4, true}} {
+		for _, float := range []bool{false, true} {
+			var ch chunkenc.Chunk = chunkenc.NewHistogramChunk()
+			if float {
+				ch = chunkenc.NewFloatHistogramChunk()
+			}
+			app, _ := ch.Appender()
+			var nc chunkenc.Chunk
+			var rec bool
+			var err error
+			for _, tt := range []int64{c.a, c.b} {
+				if float {
+					nc, rec, app, err = app.AppendFloatHistogram(nil, 0, tt, c07GrowHist(3, tt).ToFloat(nil), false)
+				} else {
+					nc, rec, app, err = app.AppendHistogram(nil, 0, tt, c07GrowHist(3, tt), false)
+				}
+				if err != nil {
+					t.Fatalf("self-test: %v", err)
+				}
+			}
+			if (nc != nil) != c.recode || rec != c.recode {
+				t.Fatalf("self-test: growing histogram t=%d after t=%d (float=%v): new chunk %v recoded %v, want recode=%v", c.b, c.a, float, nc != nil, rec, c.recode)
+			}
+		}
+		if err := c07GrowHist(3, c.b).Validate(); err != nil {
+			t.Fatalf("self-test: growing histogram t=%d invalid: %v", c.b, err)
+		}
+	}
 	if got := c07MultisetCount(3, 2); got != 6 {
 		t.Fatalf("self-test: multiset count %d", got)
 	}
@@ -1290,6 +1672,8 @@ func TestVerifC07(t *testing.T) {
 			x.partA(rp.Kinds, note("A"))
 		case "B":
 			x.partB(rp.Kinds, note("B"))
+		case "D":
+			x.partD(rp.Kinds[:2], rp.Kinds[2:], note("D"))
 		case "C":
 			for _, h := range heads() {
 				if name, mode, _ := strings.Cut(rp.Head, "/"); name == h.cfg.Name {
@@ -1371,6 +1755,23 @@ func TestVerifC07(t *testing.T) {
 	}
 
 	t.Logf("c07: part B done at %v", time.Since(t0))
+	// ---- part D: every pair multiset x every third block, over the kinds with fixed s2 and no
+	// tombstone (thorough: also the tombstone straddling a chunk boundary)
+	var kindsD []c07Kind
+	for _, k := range small {
+		if k.Tomb == 0 || (r.Thorough() && k.Tomb == 2) {
+			kindsD = append(kindsD, k)
+		}
+	}
+	if v := os.Getenv("VERIF_C07_SKIP_B"); v != "" {
+		kindsD = nil
+	}
+	r.ParallelN(c07MultisetCount(len(kindsD), 2), func(i int64) {
+		idx := c07MultisetAt(len(kindsD), 2, i, nil)
+		x.partD([]c07Kind{kindsD[idx[0]], kindsD[idx[1]]}, kindsD, note("D"))
+	})
+	r.Set("two_level_kinds", len(kindsD))
+	t.Logf("c07: part D done at %v", time.Since(t0))
 	// ---- part C
 	hs := heads()
 	type cc struct {
@@ -1413,7 +1814,7 @@ func TestVerifC07(t *testing.T) {
 	r.Set("block_kinds", len(full))
 	r.Set("block_kinds_fixed_s2", len(small))
 	r.Set("head_range_cases", len(cases))
-	r.Set("rule", "part A: every multiset of n input blocks (kinds = s1 chunk layout x s1 tombstones x s2 variant; real block directories written by a harness-local writer) through PopulateBlock into harness-local writers with the compacting merger and, for time-disjoint inputs, the concatenating merger; part B: LeveledCompactor.Compact on directory copies, output opened and read through block querier + chunk querier + meta.json; part C: LeveledCompactor.Write of every [mint,maxt) over a time grid for a plain Head, a RangeHead and an out-of-order compaction head. evaluations = compactions/populations executed; distinct_nontrivial = distinct non-empty output layouts (series, chunk encodings, sample times and value types) per part; distinct_outcomes = the same including 'empty'")
+	r.Set("rule", "part A: every multiset of n input blocks (kinds = s1 chunk layout x s1 tombstones x s2 variant; real block directories written by a harness-local writer) through PopulateBlock into harness-local writers with the compacting merger and, for time-disjoint inputs, the concatenating merger; part B: LeveledCompactor.Compact on directory copies, output opened and read through block querier + chunk querier + meta.json; part D: the output block of every pair compacted again with every third block (kinds with fixed s2); part C: LeveledCompactor.Write of every [mint,maxt) over a time grid for a plain Head, a RangeHead and an out-of-order compaction head. Every written block (B, C, D) is additionally queried over every sub-range of a time grid through both queriers and compared with its full-range read. evaluations = compactions/populations executed; distinct_nontrivial = distinct non-empty output layouts (series, chunk encodings, sample times and value types) per part; distinct_outcomes = the same including 'empty'")
 	r.Assume("input blocks are built by a harness-local writer on index.Writer/chunks.Writer; block meta ranges are tight around the samples")
 	r.Assume("de-duplication: when several inputs hold the same timestamp, any one of their undeleted values is accepted")
 	r.Assume("out-of-order compaction head: head deletions are not expected to apply (known finding recorded under C01/C20); the part C out-of-order samples lie outside the deleted interval")
